@@ -243,13 +243,22 @@ func runC19(c *Ctx) {
 	// ---------- R19.3 copy-on-write
 	c.Rule("R19.3", "E3", "Finalizers / KV / tempKV: every in-place write targets storage created in the same call, or (temp view) sits behind dirty==true; dirty is set only with a fresh map", 10)
 
-	fresh := func(v ssa.Value) bool {
+	// slice transformers that reuse the backing array of their first argument
+	sliceMutators := []string{"builtin.append", "slices.Delete", "slices.DeleteFunc", "slices.Insert", "slices.Grow", "slices.Compact", "slices.CompactFunc", "slices.Replace"}
+
+	var fresh func(v ssa.Value) bool
+
+	fresh = func(v ssa.Value) bool {
 		v = Fwd(v)
-		if _, ok := v.(*ssa.MakeMap); ok {
+
+		switch x := v.(type) {
+		case *ssa.MakeMap, *ssa.MakeSlice:
 			return true
+		case *ssa.Slice:
+			return fresh(x.X)
 		}
 
-		if _, ok := v.(*ssa.MakeSlice); ok {
+		if isNilConst(v) {
 			return true
 		}
 
@@ -259,8 +268,16 @@ func runC19(c *Ctx) {
 		}
 
 		cn := p.CalleeName(call)
+		if cn == "maps.Clone" || cn == "slices.Clone" {
+			return true
+		}
 
-		return cn == "maps.Clone" || cn == "slices.Clone"
+		// a transformer applied to storage created in this call stays in that storage
+		if GlobAny(sliceMutators, cn) && len(call.Common().Args) > 0 {
+			return fresh(call.Common().Args[0])
+		}
+
+		return false
 	}
 
 	// Finalizers
@@ -302,7 +319,8 @@ func runC19(c *Ctx) {
 
 				return isIdx && !isVarargStore(x)
 			case *ssa.Call:
-				return p.CalleeName(x) == "builtin.append"
+				// append / slices.Delete / … onto something that is not this call's own storage
+				return GlobAny(sliceMutators, p.CalleeName(x)) && len(x.Call.Args) > 0 && !fresh(x.Call.Args[0])
 			}
 
 			return false
@@ -319,7 +337,7 @@ func runC19(c *Ctx) {
 			st := in.(*ssa.Store)
 			call, _ := CallOf(st.Val)
 
-			if !fresh(st.Val) && (call == nil || p.CalleeName(call) != "builtin.append") {
+			if !fresh(st.Val) && (call == nil || !GlobAny(sliceMutators, p.CalleeName(call))) {
 				okStores = false
 			}
 		}
